@@ -443,14 +443,24 @@ def _r3(repo, L, m, ba):
 
     cro = m["cut_remaining_overhangs"]
     loops = [n for n in walk_shallow(cro.node) if isinstance(n, ast.For)]
-    okc = len(loops) == 1 and norm(loops[0].iter).endswith(".values()") and len(loops[0].body) == 1 and "cut_fragments" in norm(loops[0].body[0])
+    okc = len(loops) == 1 and norm(loops[0].iter).endswith(".values()")
     if okc:
-        for x in walk_shallow(loops[0]):
-            if isinstance(x, ast.If):
-                # a guard that only skips contigs with <= 1 owner is harmless (nothing to cut)
-                g = _guard_min_owners(x.test)
-                if g is None or g > 2 or x.orelse:
-                    okc = False
+        # every iteration cuts its contig exactly once; the only paths that may skip are guarded by "fewer than two owners"
+        for p_ in PathEnum((0, 1), exc_edges=False).block(loops[0].body):
+            if p_.status == "raise":
+                continue
+            k_ = len([c for _, c in path_calls(p_, lambda c: isinstance(c.func, ast.Attribute) and c.func.attr == "cut_fragments")])
+            if k_ == 1 and p_.status == "fall":
+                continue
+            harmless = False
+            for e_ in p_.events:
+                if e_.kind == "cond":
+                    g = _guard_min_owners(e_.node)
+                    # the path took the branch that says "not at least two owners"
+                    if g is not None and g <= 2 and e_.val is False:
+                        harmless = True
+            if not (harmless and k_ == 0):
+                okc = False
     L.check(okc, "R3", cro.short, "every contig still shared is cut", "not every still-shared contig is cut: it stays whole in two results (duplicated)", cro.loc())
     src = [norm(n.value) for n in walk_shallow(cro.node) if isinstance(n, ast.Assign) and loops and is_name(n.targets[0], norm(loops[0].iter).split(".")[0])]
     if not src and loops and isinstance(loops[0].iter, ast.Call) and isinstance(loops[0].iter.func, ast.Attribute):
